@@ -7,7 +7,7 @@
    tables regenerated from server/task.rs and server/handler.rs (Gen/AuthzTable.v); the model's
    is_authorized goes through them, so these theorems are re-checked against what the code says. *)
 From Coq Require Import NArith Arith List String.
-From Rodbus Require Import Base.Outcome Base.ServerTypes Model.Server Model.ServerExec Gen.AuthzTable Spec.Modbus
+From Rodbus Require Import Base.Outcome Base.ServerTypes Model.Server Model.ServerRender Model.ServerExec Gen.AuthzTable Spec.Modbus
   Proofs.ServerParse Proofs.ServerProofs Proofs.ServerProps Proofs.ServerTheorems.
 Import ListNotations.
 Local Open Scope N_scope.
